@@ -1091,6 +1091,10 @@ static void final_checks(enum mc_end end)
             snprintf(sig, sizeof sig, "C01/messages-missing-at-eof/tp=%s", g_tp);
             V("C01", sig, "%s had %d sends accepted, flushed and closed; %s obtained %d before EOF", tx->name,
               tx->n_acc, rx->name, rx->n_rcv);
+            /* C03: a successful send is delivered exactly once when the sender lets the socket finish its work */
+            snprintf(sig, sizeof sig, "C03/accepted-send-never-delivered/tp=%s", g_tp);
+            V("C03", sig, "%s: %d sends returned success and the socket was allowed to finish (xcm_finish 0 / blocking send "
+              "returned) before the close; %s obtained only %d before EOF", tx->name, tx->n_acc, rx->name, rx->n_rcv);
         }
         if (rx->n_rcv > tx->n_acc) {
             snprintf(sig, sizeof sig, "C01/more-received-than-accepted/tp=%s", g_tp);
